@@ -19,9 +19,9 @@ import vf
 
 PROP = 'C13'
 CFG = {'quick': ['gen/MC_C13wrap_q.cfg', 'gen/MC_C13deep_q.cfg', 'gen/MC_C13fn_q.cfg', 'gen/MC_C13slice_q.cfg',
-                 'gen/MC_C13cmp.cfg', 'gen/MC_C13ident.cfg'],
+                 'gen/MC_C13cmp.cfg', 'gen/MC_C13ident.cfg', 'gen/MC_C13stable.cfg'],
        'thorough': ['gen/MC_C13wrap_q.cfg', 'gen/MC_C13deep_t.cfg', 'gen/MC_C13mix_t.cfg', 'gen/MC_C13fn_t.cfg',
-                    'gen/MC_C13slice_t.cfg', 'gen/MC_C13cmp.cfg', 'gen/MC_C13ident.cfg']}
+                    'gen/MC_C13slice_t.cfg', 'gen/MC_C13cmp.cfg', 'gen/MC_C13ident.cfg', 'gen/MC_C13stable.cfg']}
 DOCS_CFG = 'gen/MC_C13docs.cfg'
 RT_CFG = {'quick': 'gen/MC_C13rt_q.cfg', 'thorough': 'gen/MC_C13rt_t.cfg'}   # wrap cases emitted with their trees
 
@@ -630,7 +630,7 @@ def run(tier):
                    'argument tuple over an 18-value typed alphabet for 0-2 arguments (7-value alphabet for 3): well-typed, ill-typed, wrong arity, unknown '
                    'function; (slice) every [a:b:c] with a,b,c absent or in -R..R, R = 3 | 5, and indexes, over arrays of length 0-5 and non-arrays; (cmp) all '
                    'comparators, &&, ||, ! over all pairs of 14 values of every type; (ident) quoted / escaped / non-ASCII identifiers, hash keys, literals, '
-                   'raw strings. 15 documents incl. empty containers, nulls, mixed arrays, nested arrays, sort ties, non-ASCII and quoted keys. '
+                   'raw strings; (stable) sort_by / sort / max_by / min_by / reverse / map over arrays of 17-40 elements with 2-3 distinct keys and a unique id (stability of sort_by; a library sort loses stability only above 16 elements), 154 expressions x 7 documents. 22 documents incl. empty containers, nulls, mixed arrays, nested arrays, sort ties, non-ASCII and quoted keys. '
                    'evaluations = (case, document, flavour json|ojson) x 4 entry points; distinct_nontrivial = evaluations with a non-null predicted value or a '
                    'predicted error')
     cov['bounds'] = {c: open(os.path.join(vf.SPEC, c)).read().split('CONSTANTS')[1].split('KnownDeviations')[0].split() for c in CFG[tier]}
